@@ -19,7 +19,12 @@
      flags 6  an empty element of a built-in type, no xsi:nil [C02:empty-nillable-leaf-as-none]
    xsi:nil spelled "1" is recognised since the repair of C02:xsi-nil-spelled-1 (nil_ok only
    excludes spellings that are not xsd:boolean, such as "TRUE"); attributes declared by the
-   response wrapper's type count as outputs (composite reply object) in the reference too. *)
+   response wrapper's type count as outputs (composite reply object) in the reference too.
+     simple_ok   simple-content types extend a built-in that decodes to str: the text of an
+                 element of complex type is never translated [proposed C02:simple-content-value-untyped]
+   The binding styles document/literal wrapped, document/literal bare and rpc/literal are all
+   covered by reply_decodes (style_ok); leaves are compared by VALUE through the XSD value maps
+   of C06 in the harness predicates ("1" = "true", "+5" = "05", "01.50" = "1.5"). *)
 From SV Require Import Lib.Base Fam.Schema Gen.C02Tables C02.Model C02.Spec C02.Guard C02.BuildProofs
   C02.DecodeProofs C02.PromoteProofs C02.ReplyProofs.
 
@@ -27,59 +32,77 @@ From SV Require Import Lib.Base Fam.Schema Gen.C02Tables C02.Model C02.Spec C02.
    lengths.  Whatever the prefixes, default namespaces and declarations in
    scope (env), the unmarshaller returns the reference value of the element's
    namespace infoset. *)
-Theorem decode_value : forall S names uris kinds globals,
+Theorem decode_value : forall S names uris kinds globals simple,
   schema_ok S = true -> names_ok names = true -> kinds_ok kinds = true -> globals_ok S globals = true ->
+  simple_ok simple = true ->
   forall e env dt nillable cnil x v,
     rtype_ok S dt ->
     erase env e = Some x ->
     doc_ok env e = true ->
-    flags_node S names uris kinds dt nillable x = [] ->
-    ref_node S names uris kinds dt nillable x = Some v ->
+    flags_node S names uris kinds simple dt nillable x = [] ->
+    ref_node S names uris kinds simple dt nillable x = Some v ->
     decode S names uris kinds globals false true env (Some dt) cnil e = DOk v.
 Proof.
-  intros S names uris kinds globals H1 H2 H3 H4 e.
-  exact (decode_ref_l S names uris kinds globals H1 H2 H3 H4 e).
+  intros S names uris kinds globals simple H1 H2 H3 H4 H5 e.
+  exact (decode_ref_l S names uris kinds globals simple H1 H2 H3 H4 H5 e).
 Qed.
 Print Assumptions decode_value.
 
-(* 2. whole replies: envelope and body location for SOAP 1.1 and 1.2,
-   promotePrefixes, unwrapping, none / single / list / composite result *)
-Theorem reply_decodes : forall S names uris kinds globals,
+(* 2. whole replies, for EVERY binding style (document/literal wrapped, document/
+   literal bare, rpc/literal): envelope and body location for SOAP 1.1 and 1.2,
+   promotePrefixes, reply content selection, and one output or many mapped to a
+   single value (a list when it repeats) or a composite reply object *)
+Theorem reply_decodes : forall S names uris kinds globals simple,
   schema_ok S = true -> names_ok names = true -> kinds_ok kinds = true -> globals_ok S globals = true ->
-  forall wq wt raw root x v,
-    fnames_ok (flat_elems S wt) [] = true ->
-    rnames_ok (returned_types S wt) [] = true ->
+  simple_ok simple = true ->
+  forall wq st raw root x v,
+    style_ok S st = true ->
     build raw = [root] ->
     erase [] root = Some x ->
     consistent root = true -> no_xml_decl root = true ->
     doc_ok [] (promote_node root) = true ->
     bodies_ok x = true ->
-    flags_reply S names uris kinds wt x = [] ->
-    ref_reply S names uris kinds wq wt x = Some v ->
-    reply S names uris kinds globals false true true wt raw = DOk v.
+    flags_reply S names uris kinds simple st x = [] ->
+    ref_reply S names uris kinds simple wq st x = Some v ->
+    reply S names uris kinds globals false true true st raw = DOk v.
 Proof. exact reply_decodes_l. Qed.
 Print Assumptions reply_decodes.
 
-(* 3. two replies with the same infoset decode to equal results — for ALL
-   presentations inside the guards *)
-Theorem decode_presentation_independent : forall S names uris kinds globals,
+(* 2b. the style-independent core: what Binding.get_reply does with the returned
+   types rts and the selected nodes meets the reference on the outputs ms *)
+Theorem outputs_decode : forall S names uris kinds globals simple,
   schema_ok S = true -> names_ok names = true -> kinds_ok kinds = true -> globals_ok S globals = true ->
-  forall wq wt raw1 raw2 root1 root2 x v,
-    fnames_ok (flat_elems S wt) [] = true -> rnames_ok (returned_types S wt) [] = true ->
+  simple_ok simple = true ->
+  forall env rts ms hasattrs nodes inodes v,
+    rnames_ok rts [] = true -> rts_rel rts ms hasattrs ->
+    omap (erase env) nodes = Some inodes -> forallb (doc_ok env) nodes = true ->
+    flags_outputs S names uris kinds simple ms inodes = [] ->
+    ref_outputs S names uris kinds simple ms hasattrs inodes = Some v ->
+    outputs S names uris kinds globals false true env rts nodes = DOk v.
+Proof. exact outputs_ref. Qed.
+Print Assumptions outputs_decode.
+
+(* 3. two replies with the same infoset decode to equal results — for ALL
+   presentations inside the guards, for every binding style *)
+Theorem decode_presentation_independent : forall S names uris kinds globals simple,
+  schema_ok S = true -> names_ok names = true -> kinds_ok kinds = true -> globals_ok S globals = true ->
+  simple_ok simple = true ->
+  forall wq st raw1 raw2 root1 root2 x v,
+    style_ok S st = true ->
     build raw1 = [root1] -> build raw2 = [root2] ->
     erase [] root1 = Some x -> erase [] root2 = Some x ->
     consistent root1 = true -> no_xml_decl root1 = true -> doc_ok [] (promote_node root1) = true ->
     consistent root2 = true -> no_xml_decl root2 = true -> doc_ok [] (promote_node root2) = true ->
     bodies_ok x = true ->
-    flags_reply S names uris kinds wt x = [] ->
-    ref_reply S names uris kinds wq wt x = Some v ->
-    reply S names uris kinds globals false true true wt raw1 =
-    reply S names uris kinds globals false true true wt raw2.
+    flags_reply S names uris kinds simple st x = [] ->
+    ref_reply S names uris kinds simple wq st x = Some v ->
+    reply S names uris kinds globals false true true st raw1 =
+    reply S names uris kinds globals false true true st raw2.
 Proof.
-  intros S names uris kinds globals H1 H2 H3 H4 wq wt raw1 raw2 root1 root2 x v
-         Hw Ha B1 B2 E1 E2 C1 X1 D1 C2 X2 D2 Hb Hf Hr.
-  rewrite (reply_decodes_l S names uris kinds globals H1 H2 H3 H4 wq wt raw1 root1 x v); auto.
-  rewrite (reply_decodes_l S names uris kinds globals H1 H2 H3 H4 wq wt raw2 root2 x v); auto.
+  intros S names uris kinds globals simple H1 H2 H3 H4 H5 wq st raw1 raw2 root1 root2 x v
+         Hs B1 B2 E1 E2 C1 X1 D1 C2 X2 D2 Hb Hf Hr.
+  rewrite (reply_decodes_l S names uris kinds globals simple H1 H2 H3 H4 H5 wq st raw1 root1 x v); auto.
+  rewrite (reply_decodes_l S names uris kinds globals simple H1 H2 H3 H4 H5 wq st raw2 root2 x v); auto.
 Qed.
 Print Assumptions decode_presentation_independent.
 
@@ -112,23 +135,27 @@ Print Assumptions builtin_tags_match_statement.
 Local Open Scope N_scope.
 Definition u1 : str := [117;49]%N.
 Definition u2 : str := [117;50]%N.
-(* names: l c x k T D W r rResponse; namespaces u1 u2 *)
+(* names: l c x k T D W r rResponse P cur p g1 g2 x1 opResponse; namespaces u1 u2 *)
 Definition ex_names : list (str * N) :=
-  [([108]%N, 20); ([99]%N, 21); ([120]%N, 22); ([107]%N, 30); ([84]%N, 10); ([68]%N, 11); ([87]%N, 12); ([114]%N, 40); ([114;82;101;115;112;111;110;115;101]%N, 41)].
+  [([108]%N, 20); ([99]%N, 21); ([120]%N, 22); ([107]%N, 30); ([84]%N, 10); ([68]%N, 11); ([87]%N, 12); ([114]%N, 40); ([114;82;101;115;112;111;110;115;101]%N, 41); ([80]%N, 13); ([99;117;114]%N, 31); ([112]%N, 23); ([103;49]%N, 42); ([103;50]%N, 43); ([120;49]%N, 44); ([111;112;82;101;115;112;111;110;115;101]%N, 45)].
 Definition ex_uris : list (str * N) := [(u1, 1); (u2, 2); (uri_xsi, 100); (uri_env11, 101)].
-Definition ex_kinds : list (N * N) := [(20, b_int); (22, b_string); (30, b_string)].
+Definition ex_kinds : list (N * N) := [(20, b_int); (22, b_string); (30, b_string); (31, b_string); (42, b_int); (44, b_int)].
 Definition d_l : edecl := mkE 20 1 true TBuiltin true true true None.
 Definition d_c : edecl := mkE 21 1 true (TNamed 1 10) true false true None.
 Definition ex_T : ctype := mkC 10 1 None [PC KSeq false [PE d_l; PE d_c]] [mkA 30 false None].
 Definition ex_D : ctype := mkC 11 2 (Some (1, 10)) [PC KSeq false [PE (mkE 22 2 true TBuiltin true false false None)]] [].
 Definition ex_W : ctype := mkC 12 1 None [PC KSeq false [PE d_l; PE d_c]] [].
-Definition ex_schema : schema := [ex_T; ex_D; ex_W].
+(* P: simple content (extends a built-in) with an attribute cur *)
+Definition ex_P : ctype := mkC 13 1 None [] [mkA 31 false None].
+Definition ex_schema : schema := [ex_T; ex_D; ex_W; ex_P].
+Definition ex_simple : list (qn * N) := [((1, 13), b_string)].
+Definition ex_simple_dec : list (qn * N) := [((1, 13), b_decimal)].
 Definition ex_globals : list (qn * qn) := [((1, 41), (1, 12))].
 Definition xsi_decl : str * str := ([120;115;105]%N, uri_xsi).
 
 Example guards_of_the_interface :
   schema_ok ex_schema = true /\ names_ok ex_names = true /\ kinds_ok ex_kinds = true /\
-  globals_ok ex_schema ex_globals = true.
+  globals_ok ex_schema ex_globals = true /\ simple_ok ex_simple = true /\ simple_ok ex_simple_dec = false.
 Proof. repeat split; vm_compute; reflexivity. Qed.
 
 (* ---- non-vacuity: a SOAP 1.1 reply with a list (nil item last), a derived
@@ -142,11 +169,11 @@ Definition ex_value : pyval :=
 Example reply_decodes_nonvacuous :
   exists root x,
     build ex_raw = [root] /\ erase [] root = Some x /\
-    fnames_ok (flat_elems ex_schema ex_W) [] = true /\ rnames_ok (returned_types ex_schema ex_W) [] = true /\
+    style_ok ex_schema (SWrapped ex_W) = true /\
     consistent root = true /\ no_xml_decl root = true /\ doc_ok [] (promote_node root) = true /\
-    bodies_ok x = true /\ flags_reply ex_schema ex_names ex_uris ex_kinds ex_W x = [] /\
-    ref_reply ex_schema ex_names ex_uris ex_kinds (1, 41) ex_W x = Some ex_value /\
-    reply ex_schema ex_names ex_uris ex_kinds ex_globals false true true ex_W ex_raw = DOk ex_value.
+    bodies_ok x = true /\ flags_reply ex_schema ex_names ex_uris ex_kinds ex_simple (SWrapped ex_W) x = [] /\
+    ref_reply ex_schema ex_names ex_uris ex_kinds ex_simple (1, 41) (SWrapped ex_W) x = Some ex_value /\
+    reply ex_schema ex_names ex_uris ex_kinds ex_globals false true true (SWrapped ex_W) ex_raw = DOk ex_value.
 Proof.
   eexists. eexists. split; [vm_compute; reflexivity|]. split; [vm_compute; reflexivity|].
   repeat split; vm_compute; reflexivity.
@@ -179,9 +206,9 @@ Definition nil_first_doc : elem :=
 
 Theorem nil_first_refuted : exists e x v,
   erase [] e = Some x /\ doc_ok [] e = true /\
-  ref_node ex_schema ex_names ex_uris ex_kinds (RC ex_T) false x = Some v /\
+  ref_node ex_schema ex_names ex_uris ex_kinds ex_simple (RC ex_T) false x = Some v /\
   decode ex_schema ex_names ex_uris ex_kinds ex_globals false true [] (Some (RC ex_T)) false e <> DOk v /\
-  flags_node ex_schema ex_names ex_uris ex_kinds (RC ex_T) false x = [1].
+  flags_node ex_schema ex_names ex_uris ex_kinds ex_simple (RC ex_T) false x = [1].
 Proof.
   exists nil_first_doc. eexists. eexists. split; [vm_compute; reflexivity|].
   split; [vm_compute; reflexivity|]. split; [vm_compute; reflexivity|].
@@ -196,9 +223,9 @@ Definition ws_childless_doc : elem :=
 
 Theorem whitespace_childless_refuted : exists e x v,
   erase [] e = Some x /\ doc_ok [] e = true /\
-  ref_node ex_schema ex_names ex_uris ex_kinds (RC ex_T) false x = Some v /\
+  ref_node ex_schema ex_names ex_uris ex_kinds ex_simple (RC ex_T) false x = Some v /\
   decode ex_schema ex_names ex_uris ex_kinds ex_globals false true [] (Some (RC ex_T)) false e <> DOk v /\
-  flags_node ex_schema ex_names ex_uris ex_kinds (RC ex_T) false x = [2].
+  flags_node ex_schema ex_names ex_uris ex_kinds ex_simple (RC ex_T) false x = [2].
 Proof.
   exists ws_childless_doc. eexists. eexists. split; [vm_compute; reflexivity|].
   split; [vm_compute; reflexivity|]. split; [vm_compute; reflexivity|].
@@ -213,8 +240,8 @@ Definition unprefixed_qname_doc : elem :=
 
 Theorem unprefixed_qname_refuted : exists e x v,
   erase [] e = Some x /\
-  ref_node ex_schema ex_names ex_uris ex_kinds (RC ex_T) false x = Some v /\
-  flags_node ex_schema ex_names ex_uris ex_kinds (RC ex_T) false x = [] /\
+  ref_node ex_schema ex_names ex_uris ex_kinds ex_simple (RC ex_T) false x = Some v /\
+  flags_node ex_schema ex_names ex_uris ex_kinds ex_simple (RC ex_T) false x = [] /\
   decode ex_schema ex_names ex_uris ex_kinds ex_globals false true [] (Some (RC ex_T)) false e <> DOk v /\
   doc_ok [] e = false.
 Proof.
@@ -244,12 +271,12 @@ Definition empty_complex_doc : elem := EL None [99]%N (Some u1) [] [] None [].
 
 Theorem empty_complex_refuted : exists e x v,
   erase [] e = Some x /\ doc_ok [] e = true /\
-  ref_node ex_schema ex_names ex_uris ex_kinds (RC ex_T) true x = Some v /\
+  ref_node ex_schema ex_names ex_uris ex_kinds ex_simple (RC ex_T) true x = Some v /\
   v = PObj (Some (1, 10)) [] /\
   decode ex_schema ex_names ex_uris ex_kinds ex_globals false true [] (Some (RC ex_T)) false e
     = DOk (PLeaf tag_str []) /\
   decode ex_schema ex_names ex_uris ex_kinds ex_globals false true [] (Some (RC ex_T)) true e = DOk PNone /\
-  flags_node ex_schema ex_names ex_uris ex_kinds (RC ex_T) true x = [5].
+  flags_node ex_schema ex_names ex_uris ex_kinds ex_simple (RC ex_T) true x = [5].
 Proof.
   exists empty_complex_doc. eexists. eexists. split; [vm_compute; reflexivity|].
   split; [vm_compute; reflexivity|]. split; [vm_compute; reflexivity|].
@@ -263,11 +290,87 @@ Definition empty_leaf_doc : elem := EL None [120]%N (Some u2) [] [] None [].
 
 Theorem empty_leaf_refuted : exists e x,
   erase [] e = Some x /\ doc_ok [] e = true /\
-  ref_node ex_schema ex_names ex_uris ex_kinds (RB b_string) false x = Some (PLeaf tag_str []) /\
+  ref_node ex_schema ex_names ex_uris ex_kinds ex_simple (RB b_string) false x = Some (PLeaf tag_str []) /\
   decode ex_schema ex_names ex_uris ex_kinds ex_globals false true [] (Some (RB b_string)) true e = DOk PNone /\
-  flags_node ex_schema ex_names ex_uris ex_kinds (RB b_string) false x = [6].
+  flags_node ex_schema ex_names ex_uris ex_kinds ex_simple (RB b_string) false x = [6].
 Proof.
   exists empty_leaf_doc. eexists. split; [vm_compute; reflexivity|].
   repeat split; vm_compute; reflexivity.
 Qed.
 Print Assumptions empty_leaf_refuted.
+
+(* ---- non-vacuity for the other binding styles ---- *)
+(* document/literal bare, two output parts g1 (xsd:int, written "+05") and g2 (T): composite *)
+Definition g1 : edecl := mkE 42 1 true TBuiltin false false false None.
+Definition g2 : edecl := mkE 43 1 true (TNamed 1 10) false false false None.
+Definition ex_bare_raw : ritem := (RElem [115;58;69;110;118;101;108;111;112;101]%N [([120;109;108;110;115;58;115]%N, uri_env11); ([120;109;108;110;115;58;97]%N, u1)] [(RElem [115;58;66;111;100;121]%N [] [(RChars [10]%N); (RElem [97;58;103;49]%N [] [(RChars [43]%N); (RChars [48;53]%N)]); (RElem [97;58;103;50]%N [([107]%N, [118]%N)] []); (RChars [10]%N)])]).
+Definition ex_bare_value : pyval :=
+  PObj None [([103;49]%N, PLeaf tag_int [43;48;53]%N); ([103;50]%N, PObj (Some (1, 10)) [(ch_us :: [107]%N, PLeaf tag_str [118]%N)])].
+
+Example reply_decodes_bare_nonvacuous :
+  exists root x,
+    build ex_bare_raw = [root] /\ erase [] root = Some x /\
+    style_ok ex_schema (SBare [g1; g2]) = true /\
+    consistent root = true /\ no_xml_decl root = true /\ doc_ok [] (promote_node root) = true /\
+    bodies_ok x = true /\ flags_reply ex_schema ex_names ex_uris ex_kinds ex_simple (SBare [g1; g2]) x = [] /\
+    ref_reply ex_schema ex_names ex_uris ex_kinds ex_simple (0, 0) (SBare [g1; g2]) x = Some ex_bare_value /\
+    reply ex_schema ex_names ex_uris ex_kinds ex_globals false true true (SBare [g1; g2]) ex_bare_raw
+      = DOk ex_bare_value /\
+    (* the harness compares leaves by value: "+05" is the integer 5 *)
+    pyval_eqb ex_bare_value
+      (PObj None [([103;50]%N, PObj (Some (1, 10)) [(ch_us :: [107]%N, PLeaf tag_str [118]%N)]); ([103;49]%N, PLeaf tag_int [53]%N)]) = true.
+Proof.
+  eexists. eexists. split; [vm_compute; reflexivity|]. split; [vm_compute; reflexivity|].
+  repeat split; vm_compute; reflexivity.
+Qed.
+
+(* rpc/literal, one output part x1 (xsd:int), an unqualified accessor inside the
+   response wrapper {u1}opResponse: the single value *)
+Definition part_x1 : edecl := mkE 44 0 false TBuiltin true false false None.
+Definition ex_rpc_raw : ritem := (RElem [115;58;69;110;118;101;108;111;112;101]%N [([120;109;108;110;115;58;115]%N, uri_env11); ([120;109;108;110;115;58;97]%N, u1)] [(RElem [115;58;66;111;100;121]%N [] [(RElem [97;58;111;112;82;101;115;112;111;110;115;101]%N [] [(RElem [120;49]%N [] [(RChars [53]%N)])])])]).
+
+Example reply_decodes_rpc_nonvacuous :
+  exists root x,
+    build ex_rpc_raw = [root] /\ erase [] root = Some x /\
+    style_ok ex_schema (SRpc [part_x1]) = true /\
+    consistent root = true /\ no_xml_decl root = true /\ doc_ok [] (promote_node root) = true /\
+    bodies_ok x = true /\ flags_reply ex_schema ex_names ex_uris ex_kinds ex_simple (SRpc [part_x1]) x = [] /\
+    ref_reply ex_schema ex_names ex_uris ex_kinds ex_simple (1, 45) (SRpc [part_x1]) x = Some (PLeaf tag_int [53]%N) /\
+    reply ex_schema ex_names ex_uris ex_kinds ex_globals false true true (SRpc [part_x1]) ex_rpc_raw
+      = DOk (PLeaf tag_int [53]%N).
+Proof.
+  eexists. eexists. split; [vm_compute; reflexivity|]. split; [vm_compute; reflexivity|].
+  repeat split; vm_compute; reflexivity.
+Qed.
+
+(* ---- simple content ---- *)
+(* <p xmlns="u1" cur="EUR">12.5</p> and <p xmlns="u1">12.5</p> of type P: a property object
+   with value + _cur, respectively the plain value; inside the guards (string base) *)
+Definition simple_doc (ats : list attr) : elem := EL None [112]%N (Some u1) [] ats (Some [49;50;46;53]%N) [].
+
+Example simple_content_nonvacuous :
+  doc_ok [] (simple_doc [(None, [99;117;114]%N, [69;85;82]%N)]) = true /\
+  ref_node ex_schema ex_names ex_uris ex_kinds ex_simple (RC ex_P) false
+           (IN (Some u1) [112]%N [(None, [99;117;114]%N, IText [69;85;82]%N)] [49;50;46;53]%N [])
+    = Some (PProp [112]%N [(s_value, PLeaf tag_str [49;50;46;53]%N); (ch_us :: [99;117;114]%N, PLeaf tag_str [69;85;82]%N)]) /\
+  decode ex_schema ex_names ex_uris ex_kinds ex_globals false true [] (Some (RC ex_P)) false
+         (simple_doc [(None, [99;117;114]%N, [69;85;82]%N)])
+    = DOk (PProp [112]%N [(s_value, PLeaf tag_str [49;50;46;53]%N); (ch_us :: [99;117;114]%N, PLeaf tag_str [69;85;82]%N)]) /\
+  decode ex_schema ex_names ex_uris ex_kinds ex_globals false true [] (Some (RC ex_P)) false (simple_doc [])
+    = DOk (PLeaf tag_str [49;50;46;53]%N).
+Proof. repeat split; vm_compute; reflexivity. Qed.
+
+(* the same type extending xsd:decimal: a Decimal is expected, the text comes
+   back as a str (the unmarshaller never translates the text of an element whose
+   type is a complex type) *)
+Theorem simple_content_untyped_refuted : exists e x,
+  erase [] e = Some x /\ doc_ok [] e = true /\
+  flags_node ex_schema ex_names ex_uris ex_kinds ex_simple_dec (RC ex_P) false x = [] /\
+  ref_node ex_schema ex_names ex_uris ex_kinds ex_simple_dec (RC ex_P) false x = Some (PLeaf tag_decimal [49;50;46;53]%N) /\
+  decode ex_schema ex_names ex_uris ex_kinds ex_globals false true [] (Some (RC ex_P)) false e
+    = DOk (PLeaf tag_str [49;50;46;53]%N).
+Proof.
+  exists (simple_doc []). eexists. split; [vm_compute; reflexivity|].
+  repeat split; vm_compute; reflexivity.
+Qed.
+Print Assumptions simple_content_untyped_refuted.
